@@ -58,7 +58,7 @@ def cases(tier):
     return cs
 
 
-OPTS = {'quick': dict(max_paths=40000, budget_s=250), 'thorough': dict(max_paths=400000, budget_s=1500)}
+OPTS = {'quick': dict(max_paths=40000, budget_s=900), 'thorough': dict(max_paths=400000, budget_s=1500)}
 
 
 def tiny(I):
